@@ -110,6 +110,8 @@ func init() {
 // loop=direct m=<int|-> | loop=pid p= i= d=
 func newLoop(a kv) control_loop.ControlLoop {
 	switch a.str("loop", "direct") {
+	case "piddefault": // the gains fan2go uses when the configuration names no control algorithm
+		return control_loop.NewPidControlLoop(control_loop.DefaultPidConfig.P, control_loop.DefaultPidConfig.I, control_loop.DefaultPidConfig.D)
 	case "pid":
 		return control_loop.NewPidControlLoop(a.f64("p", 0), a.f64("i", 0), a.f64("d", 0))
 	default:
